@@ -94,11 +94,18 @@ def name_lists(symbols):
             [s.name for s in symbols if s.type == T.PARAMETER], [s.name for s in symbols if s.type == T.ERROR])
 
 
+class CodegenError(Exception):
+    """build_fortran_definition raised on symbols the parser produced."""
+
+
 def build_classes(prog, workdir):
-    """(PythonClass, FortranClass or None, fortran text, compile log or None)."""
+    """(symbols, PythonClass, FortranClass or None, fortran text, compile log or None)."""
     symbols = symbols_of(prog['script'])
-    text = fsic.fortran.build_fortran_definition(symbols)
     P = fsic.build_model(symbols)
+    try:
+        text = fsic.fortran.build_fortran_definition(symbols)
+    except Exception as e:  # noqa: BLE001
+        raise CodegenError(f'{type(e).__name__}: {e}') from e
     try:
         eng = fc.build_engine(text, workdir)
     except fc.CompileError as e:
@@ -291,7 +298,7 @@ def mkopts(min_iter=0, max_iter=100, tol=1e-10, offset=0, failures='raise', erro
 
 def random_opts(rng, lags):
     max_iter = rng.choice([1, 2, 3, 5, 8, 20, 100, 100])
-    min_iter = rng.choice([0, 0, 0, 1, 2, 3, max_iter, max_iter + 1])
+    min_iter = rng.choice([0, 0, 0, 0, 1, 2, min(3, max_iter), max_iter, max_iter, max_iter + 1])
     tol = rng.choice([1e-10, 1e-10, 1e-6, 1e-3, 0.25, 0.5])
     offset = rng.choice([0, 0, 0, 0, -1, -1, 1, -2, 2, -7, 7])
     return mkopts(min_iter, max_iter, tol, offset, rng.choice(['raise', 'ignore']),
@@ -676,6 +683,12 @@ def process_program(job):
     try:
         try:
             symbols, P, F, text, log = build_classes(prog, work)
+        except CodegenError as e:
+            out['violations'].append({'key': 'codegen-raises', 'what': f'build_fortran_definition raised {e}',
+                                      'case': {'script': prog['script'], 'tag': prog.get('tag', 'random')}})
+            out['cases'].append((json.dumps(prog['script']), False))
+            count('codegen-raises')
+            return out
         except Exception as e:  # noqa: BLE001  the generator produced something fsic's parser rejects
             out['notes'].append(f'program {idx} rejected by the parser: {type(e).__name__}: {str(e)[:200]}\n{prog["script"]}')
             count('parser-rejected')
@@ -767,12 +780,50 @@ def process_program(job):
 
 # ---------------------------------------------------------------------------------------------------------------
 
+def crash_result(job, why):
+    idx, prog = job[0], job[1]
+    return {'idx': idx, 'dist': {'engine-crash': 1}, 'cases': [(json.dumps(prog['script']), False)], 'model': [],
+            'notes': [], 'text': None,
+            'violations': [{'key': 'engine-crash', 'what': f'the process running the compiled module died ({why})',
+                            'case': {'script': prog['script'], 'tag': prog.get('tag', 'random')}}]}
+
+
+def run_jobs(jobs, workers, timeout):
+    """One program per task in a pool of forked workers.  A compiled module that crashes its process (out-of-bounds
+    write after a code-generation defect) breaks the pool: the unfinished programs are then re-run one per process,
+    and the ones that die again are reported as `engine-crash`."""
+    from concurrent.futures import ProcessPoolExecutor, as_completed
+    from concurrent.futures.process import BrokenProcessPool
+    ctx = multiprocessing.get_context('fork')
+    done = {}
+    try:
+        with ProcessPoolExecutor(max_workers=workers, mp_context=ctx) as ex:
+            futs = {ex.submit(process_program, j): j for j in jobs}
+            for f in as_completed(futs, timeout=timeout):
+                j = futs[f]
+                try:
+                    done[j[0]] = f.result()
+                except BrokenProcessPool:
+                    pass
+    except BrokenProcessPool:
+        pass
+    for j in jobs:
+        if j[0] in done:
+            continue
+        try:
+            with ProcessPoolExecutor(max_workers=1, mp_context=ctx) as ex:
+                done[j[0]] = ex.submit(process_program, j).result(timeout=timeout)
+        except BrokenProcessPool:
+            done[j[0]] = crash_result(j, 'signal')
+    return [done[j[0]] for j in jobs]
+
+
 def gen_programs(ctx, n_random):
     progs = designed_programs()
     rng = ctx.sub_rng('programs')
     for i in range(n_random):
         r = rng.random()
-        g = fg.Gen(rng, libm=(r < 0.45))
+        g = fg.Gen(rng, libm=(r < 0.6))
         if r > 0.93:
             p = g.program(big=True)
         else:
@@ -799,8 +850,9 @@ def run(ctx, rep):
     budget = {'evaluate': 5, 'solve_t': 12, 'solve': 5} if quick else {'evaluate': 6, 'solve_t': 16, 'solve': 8}
     progs = gen_programs(ctx, n_random)
     jobs = [(i, p, f'{ctx.prop}:{ctx.seed}:prog:{i}', budget, ctx.oracle_only) for i, p in enumerate(progs)]
-    with multiprocessing.get_context('fork').Pool(min(ctx.workers, 16)) as pool:
-        results = pool.map(process_program, jobs, chunksize=1)
+    results = run_jobs(jobs, min(ctx.workers, 16), 900 if quick else 3600)
+    if sum(1 for o in results if o['dist'].get('parser-rejected')) > len(results) // 2:
+        raise RuntimeError('the parser rejects most generated programs: ' + '; '.join(results[0]['notes'])[:500])
     text_reqs, model_reqs = [], []
     for out in results:
         for k, v in out['dist'].items():
@@ -880,7 +932,12 @@ def replay(ctx, rep, case):
     prog['libm'] = any(fg.uses_libm(eq['rhs']) for eq in prog['eqs'])
     work = tempfile.mkdtemp(prefix='fsic-c07-')
     try:
-        symbols, P, F, text, log = build_classes(prog, work)
+        try:
+            symbols, P, F, text, log = build_classes(prog, work)
+        except CodegenError as e:
+            print('  build_fortran_definition raised', e)
+            rep.violate('codegen-raises', str(e), case)
+            return
         if F is None:
             print('  generated Fortran does not compile:', [l for l in log.splitlines() if 'Error' in l][:2])
             rep.violate('does-not-compile', 'compile error', case)
